@@ -47,17 +47,48 @@ class Prediction:
                 "skipped": self.why_skipped, "errors": [[list(p), m] for p, m in sorted(self.errors, key=repr)], "ctor": self.ctor}
 
 
-def predict(spec, case, order_mode="sub-first", post_init_skip=True) -> Prediction:
-    al = aliaser_fn(spec.get("aliaser"))
+class Static:
+    """everything about a spec that does not depend on the case (computed once per program)"""
+
+    def __init__(self, spec):
+        al = aliaser_fn(spec.get("aliaser"))
+        self.spec = spec
+        self.fields = []
+        for f in spec["fields"]:
+            ext = ext_name(spec, f["n"])
+            fvs = []
+            for name, style in zip(field_validator_names(f), list(f.get("fv") or []) + list(f.get("nt") or [])):
+                fvs.append((name, [((ext,) + path, msg) for path, msg in error_paths(style, name, None, al)]))
+            self.fields.append((f["n"], ext, is_required(f), fvs))
+        self.post_init_fields = frozenset(f["n"] for f in spec["fields"] if f.get("post_init"))
+        self.value_fields = [(f["n"], bool(f.get("post_init"))) for f in spec["fields"] if not is_initvar(f)]
+        self.orders = {}
+        for mode in ("sub-first", "base-first"):
+            vs = []
+            for v in validator_order(spec, mode):
+                deps = frozenset(deps_of(v))
+                disc = frozenset(discard_of(v))
+                pf_alias = (field_of(spec, v["pf"]).get("alias") or v["pf"]) if v.get("pf") else None
+                prefix = (ext_name(spec, v["field"]),) if v.get("field") else ()
+                errs = [(prefix + path, msg) for path, msg in error_paths(v["style"], v["n"], pf_alias, al)]
+                reads = [(fn, fn in self.post_init_fields) for fn, _ in v["reads"]] + [(p, False) for p in (v.get("params") or [])]
+                vs.append((v["n"], deps, disc, reads, errs, bool(disc) and not disc & deps))
+            self.orders[mode] = vs
+        av = spec.get("arg_validator")
+        self.av_deps = frozenset(av["reads"]) if av else None
+
+
+def predict(spec, case, order_mode="sub-first", post_init_skip=True, static=None) -> Prediction:
+    S = static or Static(spec)
     status, fail = case["status"], set(case["fail"])
     P = Prediction()
     errors = []
     bad, provided_ok = set(), set()
     field_runs = set()
-    for f in spec["fields"]:
-        fn, st, ext = f["n"], status[f["n"]], ext_name(spec, f["n"])
+    for fn, ext, required, fvs in S.fields:
+        st = status[fn]
         if st == "A":
-            if is_required(f):
+            if required:
                 bad.add(fn)
                 errors.append(((ext,), "missing"))
         elif st == "I":
@@ -65,12 +96,11 @@ def predict(spec, case, order_mode="sub-first", post_init_skip=True) -> Predicti
             errors.append(((ext,), "type"))
         else:
             ok = True
-            for name, style in zip(field_validator_names(f), list(f.get("fv") or []) + list(f.get("nt") or [])):
+            for name, errs in fvs:
                 field_runs.add(name)  # every function validator of a well-typed provided field value executes
                 if name in fail:
                     ok = False
-                    for path, msg in error_paths(style, name, None, al):
-                        errors.append(((ext,) + path, msg))
+                    errors.extend(errs)
             if ok:
                 provided_ok.add(fn)
             else:
@@ -79,61 +109,40 @@ def predict(spec, case, order_mode="sub-first", post_init_skip=True) -> Predicti
     if extra:
         errors.append(((extra,), "unexpected"))
     structural = bool(errors)
-    post_init_fields = {f["n"] for f in spec["fields"] if f.get("post_init")}
+    post_init_fields = S.post_init_fields
     discarded = set()
     runs, why = [], {}
     f16 = False
-    for v in validator_order(spec, order_mode):
-        deps = deps_of(v)
+    for name, deps, disc, reads, errs, f16_static in S.orders[order_mode]:
         if not deps:
-            why[v["n"]] = "no-deps"
+            why[name] = "no-deps"
         elif deps & bad:
-            why[v["n"]] = "invalid-dep"
+            why[name] = "invalid-dep"
         elif deps & discarded:
-            why[v["n"]] = "discarded-dep"
+            why[name] = "discarded-dep"
         elif not deps & provided_ok:
-            why[v["n"]] = "all-default"
+            why[name] = "all-default"
         elif structural and post_init_skip and deps & post_init_fields:
-            why[v["n"]] = "post-init-dep"
+            why[name] = "post-init-dep"
         else:
-            reads = []
-            for fn, _ in v["reads"]:
-                val = VALID[fn] if fn in provided_ok else DEFAULT[fn]
-                if fn in post_init_fields:
-                    val = None  # unspecified: value before or after __post_init__
-                reads.append((fn, val))
-            for p in v.get("params") or []:
-                reads.append((p, VALID[p] if p in provided_ok else DEFAULT[p]))
-            runs.append((v["n"], tuple(reads)))
-            if v["n"] in fail:
-                pf_alias = (field_of(spec, v["pf"]).get("alias") or v["pf"]) if v.get("pf") else None
-                prefix = (ext_name(spec, v["field"]),) if v.get("field") else ()
-                for path, msg in error_paths(v["style"], v["n"], pf_alias, al):
-                    errors.append((prefix + path, msg))
-                d = discard_of(v)
-                if d and not d & deps:
+            # value read: datum value if provided, else the default; None = unspecified (before or after __post_init__)
+            runs.append((name, tuple((fn, None if pi else (VALID[fn] if fn in provided_ok else DEFAULT[fn])) for fn, pi in reads)))
+            if name in fail:
+                errors.extend(errs)
+                if f16_static:
                     f16 = True  # the failing validator does not read what it discards (mechanism of F16)
-                discarded |= d
+                discarded |= disc
     P.field_runs, P.class_runs, P.why_skipped = field_runs, runs, why
     P.errors, P.structural = errors, structural
     P.bad, P.provided_ok, P.f16_shape = bad, provided_ok, f16
     P.ctor = 0 if errors else 1
     P.value = None
     if not errors:
-        val = {}
-        for f in spec["fields"]:
-            if is_initvar(f):
-                continue
-            x = VALID[f["n"]] if f["n"] in provided_ok else DEFAULT[f["n"]]
-            if f.get("post_init"):
-                x += POST_INIT_DELTA
-            val[f["n"]] = x
-        P.value = val
+        P.value = {fn: (VALID[fn] if fn in provided_ok else DEFAULT[fn]) + (POST_INIT_DELTA if pi else 0) for fn, pi in S.value_fields}
     # unregistered function validator given through the `validators=` argument: reads attributes of the object
-    av = spec.get("arg_validator")
     P.arg_validator_runs = None
-    if av:
-        deps = set(av["reads"])
+    if S.av_deps is not None:
+        deps = S.av_deps
         P.arg_validator_runs = bool(deps) and not deps & bad and bool(deps & provided_ok)
     return P
 
